@@ -8,7 +8,7 @@ RULE = ('H-MIXED: for every message K of all 24 mergeable classes in every initi
         'roReplace, roDelete; up to P informative edits per class): m = parse(K); ro1 += m; ro2 += m (same object) vs '
         'ro2\' += parse(K); ro1 += E; then str(m) equals its snapshot, str(ro2) is unchanged, ro3 += m equals ro3\' += parse(K), '
         'and ro1 += m equals the same on the re-read ro1. All comparisons are literal string equalities between '
-        'executions of the implementation (differential). transitions = K-steps; histories counted separately.')
+        'executions of the implementation (differential). transitions = K-steps; histories counted separately. The same histories are also run with the message merged through its documented merge() method instead of `+`.')
 
 
 def vacuity(by_kind, by_outcome, extra, by_class):
@@ -22,7 +22,10 @@ def run(tier):
     if tier == 'quick':
         fh = HMixed(max_list=1, meta_subsets=1, story_L=1)
         parts = [{'label': 'K;E', 'harness': HMixed(max_list=1, story_L=2, meta_subsets=1, layouts=('before',)),
-                  'monitors': [Independence(fh, per_kind=2)], 'opts': {'max_depth': 0}}]
+                  'monitors': [Independence(fh, per_kind=2)], 'opts': {'max_depth': 0}},
+                 {'label': 'K;E through msg.merge(ro)', 'harness': HMixed(max_list=1, story_L=1, meta_subsets=1, layouts=('before',),
+                                                                          init_shapes=[('A', 'AB'), ('AB', 'A', 'C')]),
+                  'monitors': [Independence(fh, per_kind=1, direct=True)], 'opts': {'max_depth': 0}}]
     else:
         fh = HMixed(max_list=1, meta_subsets=1, story_L=1)
         parts = [{'label': 'K;E', 'harness': HMixed(max_list=2, story_L=2, meta_subsets=2, rich=True),
